@@ -6,3 +6,6 @@ import Peppi.Props.C18
 #print axioms Peppi.Props.C18.tarRead_archive
 #print axioms Peppi.Props.C18.tarEntry_length
 #print axioms Peppi.Props.C18.parseOctal_octal
+#print axioms Peppi.Props.C18.slppRead_written
+#print axioms Peppi.Props.C18.slppWrite_signature
+#print axioms Peppi.Props.C18.tarArchive_length_ge
